@@ -308,6 +308,8 @@ def build():
                                                 Levenshtein().distance_bins.tolist() if hasattr(Levenshtein(), "distance_bins") else None])
     add("next_nearest_neighbors/3", "pure", lambda: dict(x="AB"), lambda a: prs.next_nearest_neighbors(a["x"], lambda y: prs.hamming_neighbors(y, alphabet="AB"), maxdistance=3))
     add("pc_joint/gap_token", "pure", lambda: dict(df=_dfg(), d2=_dfg().iloc[::-1]), lambda a: prs.pc_joint(a["df"], ["CDR3B", "v"], a["d2"], gap_token="|"))
+    add("similarity_clustermap/short_mapper_list", "cm_default", lambda: dict(df=_cm_df(), m=[prs.plotting.labels_to_colors_tableau], c=["donor"]),
+        lambda a: prs.plotting.similarity_clustermap(a["df"], meta_columns=a["c"], meta_to_colors=a["m"]), canon_fn=_clustermap_canon, slow=True)
     # ---- float64 arrays handed over by the caller: np.asarray(x, dtype=float) does not copy them, so in-place arithmetic inside a
     #      function would write into the caller's array
     add("pc_conditional/weights_f64", "pure", lambda: dict(df=_dfg(), w=np.array([0.5, 2.0])), lambda a: prs.pc_conditional(a["df"], "g", "CDR3B", group_weights=a["w"]))
